@@ -42,6 +42,9 @@ RULE = (
     "--keep, --dates, date regex/format, tip states / ambiguities / path, traits, GMRF variants, variational "
     "family / distribution / sample sizes / divergence, HMC integrator / mass matrix / adaptors / split / join, "
     "MAP options, ...), each option absent by default so that failures shrink to the few options that matter. "
+    "Sub-check 'objectives' enumerates how a density is wired into an algorithm object (advi: divergence ELBO / KLpq "
+    "x K_grad_samples x K_elbo_samples x family meanfield / fullrank / realnvp; hmc: single / split operators, adaptors, "
+    "diagonal / dense mass matrix; mcmc) on six representative model tuples. "
     "Sub-check 'executables' (thorough tier) sends a sample through the real torchtree-cli and torchtree "
     "programs in subprocesses. A configuration is counted when the CLI accepted it (exit 0 and JSON on stdout); "
     "non-trivial = accepted and (a time tree or >= 3 sampled/optimised parameter blocks); distinct = "
@@ -1337,6 +1340,48 @@ def expand_core(c):
     }
 
 
+# =========================================================================== enumeration of the objective objects
+OBJECTIVE_MODELS = [
+    {"model": "JC69"},
+    {"model": "HKY", "categories": 4, "invariant": True},
+    {"model": "GTR", "clock": "strict", "heights": "ratio", "coalescent": "constant"},
+    {"model": "HKY", "clock": "strict", "heights": "shift", "coalescent": "exponential"},
+    {"model": "JC69", "clock": "strict", "heights": "ratio", "heights_init": "tree", "coalescent": "skygrid", "grid": 4, "cutoff": 9.0},
+    {"model": "SRD06", "clock": "strict", "heights": "ratio", "heights_init": "tree", "coalescent": "skyride"},
+]
+
+
+def objective_cases(tier):
+    """every way the CLI wires a density into an algorithm object: advi divergence x multi-sample gradient / ELBO
+    x variational family, hmc operator layout x mass matrix, mcmc - on six representative model tuples"""
+    out = []
+    k = 0
+    for m in OBJECTIVE_MODELS:
+        for div in ("ELBO", "KLpq"):
+            for kg in (1, 2):
+                for ke in (1, 2):
+                    for fam in ("meanfield", "fullrank", "realnvp"):
+                        o = dict(m, divergence=div, variational=VARIATIONAL_MENU[fam])
+                        if kg > 1:
+                            o["K_grad_samples"] = kg
+                        if ke > 1:
+                            o["K_elbo_samples"] = ke
+                        out.append({"cmd": "advi", "opts": o, "k": k})
+                        k += 1
+        for layout in ({}, {"split": True}, {"adapt_mass_matrix": True, "adapt_step_size": "dualaveraging"}):
+            for mm in ("diagonal", "dense"):
+                out.append({"cmd": "hmc", "opts": dict(m, mass_matrix=mm, **layout), "k": k})
+                k += 1
+        out.append({"cmd": "mcmc", "opts": dict(m), "k": k})
+        k += 1
+    return out
+
+
+def expand_objective(c):
+    kind = KIND_OF_MODEL.get(c["opts"]["model"], "nuc")
+    return {"cmds": [c["cmd"]], "opts": c["opts"], "data": seeded_dataset(kind, c["k"] % NDATA), "torch_seed": c["k"]}
+
+
 # =========================================================================== pairwise strategy
 @st.composite
 def pairwise_case(draw, cmds=None):
@@ -1441,7 +1486,7 @@ def pairwise_case(draw, cmds=None):
         put("poisson", st.just(True), 25)
         put("variational", st.sampled_from(["meanfield", "fullrank", "fullrank", "realnvp"] + sorted(VARIATIONAL_MENU)).map(lambda k: VARIATIONAL_MENU[k]), 3)
         put("distribution", st.sampled_from(["Normal", "Gamma", "LogNormal"]), 8)
-        put("divergence", st.sampled_from(["KLpq", "ELBO"]), 5)
+        put("divergence", st.sampled_from(["KLpq", "KLpq", "ELBO"]), 3)
         put("entropy", st.just(True), 6)
         put("elbo_samples", st.sampled_from(["3", "2,2"]), 6)
         put("grad_samples", st.sampled_from(["2", "2,2"]), 6)
@@ -1607,6 +1652,7 @@ def subchecks(tier):
     core.shards_quick = 8
     subs = [
         core,
+        Sub("objectives", body, enumerate=objective_cases, expand=expand_objective, exhaustive=True, size=case_size),
         Sub("pairwise", body, strategy=pairwise_case, quick=900, thorough=24000, size=case_size, shrink_s=40),
     ]
     if tier == "thorough":
